@@ -535,8 +535,7 @@ begin
         perform insert_transaction(new.ledger, new.data -> 'transaction', new.date, new.data -> 'accountMetadata');
         for _key, _value in (select * from jsonb_each_text(new.data -> 'accountMetadata'))
             loop
-                perform upsert_account(new.ledger, _key, _value,
-                                       (new.data -> 'transaction' ->> 'timestamp')::timestamp);
+                perform upsert_account(new.ledger, _key, _value, new.date);
             end loop;
     end if;
     if new.type = 'REVERTED_TRANSACTION' then
